@@ -2533,6 +2533,11 @@ pub struct RxSim {
     pub inwin: Vec<bool>,
     pub fin_sent: bool,
     pub fin_inwin: bool,
+    /// max_burst_size only: bytes / FIN that arrived inside the window the socket computed (buffer
+    /// room) although beyond the smaller, clamped window field the interface put on the wire
+    pub inbuf: Vec<bool>,
+    pub fin_inbuf: bool,
+    pub edge_unclamped: Option<i64>,
     pub shift: u32,
     pub sock_ws: Option<u8>,
     pub edge_max: Option<i64>,
@@ -2638,6 +2643,7 @@ pub fn gen_rx(rng: &mut Rng, id: String, tier: &str) -> Case {
         ("ka", if rng.chance(1, 8) { "500" } else { "0" }.to_string()),
         ("nops", nops.to_string()),
         ("bp", (rng.chance(1, 3) as u8).to_string()),
+        ("burst", if rng.chance(1, 8) { *rng.pick(&[1i64, 2, 4]) } else { 0 }.to_string()),
     ]
     .iter()
     .map(|(k, v)| (k.to_string(), v.clone()))
@@ -2652,7 +2658,7 @@ impl RxSim {
         let v6 = c.get("ipv") == Some("6");
         let ip_mtu = gi("mtu", 1500) as usize;
         let rs: u64 = c.get("rs").map(|v| v.parse().expect("rs")).unwrap_or(1);
-        let (iface, dev, sock_addr) = make_iface(false, v6, ip_mtu, 0, rs);
+        let (iface, dev, sock_addr) = make_iface_caps(false, v6, ip_mtu, 0, rs, gi("burst", 0) as usize, 0);
         let e = EpCfg {
             rx: gi("rx", 64) as usize,
             tx: gi("tx", 64) as usize,
@@ -2713,6 +2719,9 @@ impl RxSim {
             inwin: vec![false; f_len as usize],
             fin_sent: false,
             fin_inwin: false,
+            inbuf: vec![false; f_len as usize],
+            fin_inbuf: false,
+            edge_unclamped: None,
             shift: 0,
             sock_ws: None,
             edge_max: None,
@@ -2778,10 +2787,10 @@ impl RxSim {
         self.dev.tx_budget = Some(limit.unwrap_or(POLL_TX_BUDGET + 2 * self.dev.rx.len()));
         let st0 = self.sock_ref().state();
         let q0 = self.sock_ref().recv_queue();
-        let edge0 = self.edge_max.unwrap_or(0);
+        let (edge0, edge0u) = (self.edge_max.unwrap_or(0), self.edge_unclamped.unwrap_or(0));
         self.iface.poll(Instant::from_micros(now), &mut self.dev, &mut self.sockets);
         let ingested = self.dev.n_rx - n0;
-        self.account_ingested(ingested, edge0);
+        self.account_ingested(ingested, edge0, edge0u);
         if st0 == tcp::State::TimeWait && self.sock_ref().state() == tcp::State::Closed && q0 > 0 && self.sock_ref().recv_queue() == 0 {
             let d = format!("case {} t={}us: TIME-WAIT expired and the socket discarded {} received bytes the application had not read yet (recv can never return them or Finished)", self.id, now, q0);
             self.out.fail("c02-timewait-discards-unread", d);
@@ -2837,7 +2846,7 @@ impl RxSim {
                 let b = seg_brief(&s, self.txo.iss, Some(self.irs));
                 self.tr(format!("  socket tx {}", b));
             }
-            self.on_socket_segment(&s);
+            self.on_socket_segment(&s, after);
         }
         self.deadline_invariant("after poll");
         if matches!(self.sock_ref().state(), tcp::State::FinWait2 | tcp::State::TimeWait) && self.txo.fin_off.is_none() && !self.peer_acked_unsent {
@@ -2848,7 +2857,7 @@ impl RxSim {
 
     /// the interface took `n` frames from the device: write the receiver oracle's books for the peer
     /// segments among them, with the right edge the socket had advertised before that poll
-    fn account_ingested(&mut self, n: usize, edge: i64) {
+    fn account_ingested(&mut self, n: usize, edge: i64, edge_unclamped: i64) {
         for _ in 0..n {
             let Some(m) = self.rxq_meta.pop_front() else { break };
             let Some((so, len, fin)) = m else { continue };
@@ -2857,18 +2866,24 @@ impl RxSim {
                 if o < edge {
                     self.inwin[o as usize] = true;
                 }
+                if o < edge_unclamped {
+                    self.inbuf[o as usize] = true;
+                }
             }
             if fin {
                 self.fin_sent = true;
                 if so + len <= edge {
                     self.fin_inwin = true;
                 }
+                if so + len <= edge_unclamped {
+                    self.fin_inbuf = true;
+                }
             }
         }
     }
 
     /// receiver-side oracle on a segment the socket emitted
-    fn on_socket_segment(&mut self, s: &Seg) {
+    fn on_socket_segment(&mut self, s: &Seg, free: usize) {
         if s.has(F_RST) {
             return;
         }
@@ -2893,10 +2908,16 @@ impl RxSim {
         let edge = a + ((s.win as i64) << if s.has(F_SYN) { 0 } else { self.shift });
         // keep-alives and window probes (one payload byte) do not update the socket's own record of
         // what it advertised; the socket may still be using the previous, larger edge
+        // what the socket itself recorded as advertised (before iface/packet.rs clamped the field)
+        let sh = self.shift;
+        let own = if s.has(F_SYN) { ((free.min(65535) >> sh) << sh) as i64 } else { ((free >> sh).min(65535) << sh) as i64 };
+        let edge_u = (a + own).max(edge);
         if s.pay_len == 1 {
             self.edge_max = Some(self.edge_max.map_or(edge, |e| e.max(edge)));
+            self.edge_unclamped = Some(self.edge_unclamped.map_or(edge_u, |e| e.max(edge_u)));
         } else {
             self.edge_max = Some(edge);
+            self.edge_unclamped = Some(edge_u);
         }
         self.last_ack = a;
         self.last_win = (s.win as i64) << if s.has(F_SYN) { 0 } else { self.shift };
@@ -2919,7 +2940,18 @@ impl RxSim {
                 self.f_len,
                 self.fin_sent
             );
-            self.out.fail("c04-ack-ahead", d);
+            // max_burst_size: is the excess explained by the unclamped window the socket computed?
+            let p_buf = Self::prefix(&self.inbuf);
+            let legal_buf = p_buf + if self.fin_inbuf && p_buf == self.f_len { 1 } else { 0 };
+            if self.dev.max_burst.is_some() && a <= legal_buf {
+                let d = format!(
+                    "case {} t={}us: max_burst_size = {:?}: socket acknowledges stream offset {}; only {} contiguous bytes arrived inside the (clamped) window field it put on the wire, the rest inside the unclamped window it computed (buffer room)",
+                    self.id, self.now, self.dev.max_burst, a, p_in
+                );
+                self.out.fail("c04-accepts-beyond-burst-clamped-window", d);
+            } else {
+                self.out.fail("c04-ack-ahead", d);
+            }
         }
     }
 
@@ -2979,10 +3011,10 @@ impl RxSim {
         }
         if self.ingress_only {
             // the application drives ingress and egress separately (poll_ingress_single / poll_egress)
-            let (n0, edge0) = (self.dev.n_rx, self.edge_max.unwrap_or(0));
+            let (n0, edge0, edge0u) = (self.dev.n_rx, self.edge_max.unwrap_or(0), self.edge_unclamped.unwrap_or(0));
             self.iface.poll_ingress_single(Instant::from_micros(self.now), &mut self.dev, &mut self.sockets);
             let n = self.dev.n_rx - n0;
-            self.account_ingested(n, edge0);
+            self.account_ingested(n, edge0, edge0u);
             let frames = self.dev.drain_tx();
             for f in frames {
                 if let Some(s) = parse_tcp(Medium::Ip, &f) {
@@ -2990,7 +3022,8 @@ impl RxSim {
                         let b = seg_brief(&s, self.txo.iss, Some(self.irs));
                         self.tr(format!("  socket tx (ingress reply) {}", b));
                     }
-                    self.on_socket_segment(&s);
+                    let free = self.rxcap - self.sock_ref().recv_queue();
+                    self.on_socket_segment(&s, free);
                 }
             }
             self.refresh();
@@ -3030,8 +3063,13 @@ impl RxSim {
                         break;
                     }
                     if !self.inwin[o as usize] {
-                        let d = format!("case {} t={}us: byte {} was delivered to the application although it never arrived inside the advertised window", self.id, self.now, o);
-                        self.out.fail("c04-beyond-window", d);
+                        if self.dev.max_burst.is_some() && self.inbuf[o as usize] {
+                            let d = format!("case {} t={}us: max_burst_size = {:?}: byte {} was delivered to the application; it arrived beyond the (clamped) window field on the wire but inside the unclamped window the socket computed", self.id, self.now, self.dev.max_burst, o);
+                            self.out.fail("c04-accepts-beyond-burst-clamped-window", d);
+                        } else {
+                            let d = format!("case {} t={}us: byte {} was delivered to the application although it never arrived inside the advertised window", self.id, self.now, o);
+                            self.out.fail("c04-beyond-window", d);
+                        }
                         break;
                     }
                 }
